@@ -66,6 +66,26 @@ def calls_any(cg, f, names, depth=3, _seen=None):
     return False
 
 
+def simu_memo_state_rule(ctx, rid):
+    """a memoised simulation method may depend on its arguments only (its cache key)"""
+    repo = ctx.repo
+    simu = repo.cls(SIMU)
+    cached = [f for f in repo.all_functions() if f.is_cached() and f.cls is not None]
+    r3d = ctx.rule(rid, "a memoised simulation method reads no model / simulation state through self: model changes only raise Need_Update (the memo is not cleared), so every input must be part of the cache key", min_instances=1)
+    for f in cached:
+        if f.cls is None or simu not in f.cls.mro:
+            continue
+        r3d.instance(fn=f.qualname)
+        reads = sorted({n.attr for n in ast.walk(f.node) if isinstance(n, ast.Attribute) and isinstance(n.value, ast.Name) and n.value.id == "self" and isinstance(n.ctx, ast.Load)
+                        and not (f.cls is not None and repo.lookup_method(f.cls, n.attr) is not None and n.attr not in f.cls.properties_all())} if hasattr(f.cls, "properties_all") else
+                       {n.attr for n in ast.walk(f.node) if isinstance(n, ast.Attribute) and isinstance(n.value, ast.Name) and n.value.id == "self" and isinstance(n.ctx, ast.Load)})
+        reads = [a for a in reads if a not in ("mesh",)]
+        if not reads:
+            r3d.ok(f"{f.qualname}: depends on its arguments only")
+        else:
+            r3d.fail(f.qualname, f"reads-state:{reads[0]}", f.file, f.lineno, f"{f.cls.name}.{f.name}", f"memoised (keyed by its arguments) but reads self.{reads[0]}: changing that state notifies the simulation, which raises Need_Update and re-assembles - with the memoised value of the old state")
+
+
 def motion_notify_rule(ctx, cg=None):
     from ..flow import CallGraph
 
@@ -169,7 +189,11 @@ def run(ctx):
                         r3.ok(f"{c.name}.{f.name} lazily initialises self.{a}")
                     else:
                         r3.fail(f.qualname, f"no-invalidate:{a}", f.file, n.lineno, f"{c.name}.{f.name}", f"stores self.{a}, which the memoised methods of {ci.name} read ({', '.join(sorted(x.name for x in fs)[:3])}...), without clearing the memoised values: the next read returns results of the old {a.split('__')[-1]}")
-    from ..shared import setter_discipline_rule, approx_guard_rule
+    from ..shared import setter_discipline_rule, approx_guard_rule, memo_rule, cached_param_rule
+
+    cached_param_rule(ctx, "R14.10", cg)
+
+    memo_rule(ctx, "R14.9", cg, scope=lambda f: not f.module.name.startswith(("EasyFEA.Utilities._tic", "EasyFEA.Geoms")))
 
     setter_discipline_rule(ctx, "R14.7")
     approx_guard_rule(ctx, "R14.8", ["EasyFEA.FEM._group_elem", "EasyFEA.FEM._mesh", "EasyFEA.Simulations._simu", "EasyFEA.Utilities._params", "EasyFEA.Utilities._cache", "EasyFEA.Utilities._observers"])
@@ -247,20 +271,7 @@ def run(ctx):
             r3c.ok(f"{f.qualname} is keyed by {obj_params}; _Simu._Update clears the memoised values on mesh events")
         else:
             r3c.fail(f.qualname, f"stale-on-mesh-event:{obj_params[0]}", f.file, f.lineno, f"{f.cls.name}.{f.name}", f"memoised per `{obj_params[0]}` object but computed from its geometry; moving / re-coordinating the mesh notifies the simulation, whose _Update raises Need_Update but keeps the memoised value: the element matrix of the old geometry is reused")
-    # ---- R14.3d a memoised simulation method may depend on its arguments only (its cache key)
-    r3d = ctx.rule("R14.3d", "a memoised simulation method reads no model / simulation state through self: model changes only raise Need_Update (the memo is not cleared), so every input must be part of the cache key", min_instances=1)
-    for f in cached:
-        if f.cls is None or simu not in f.cls.mro:
-            continue
-        r3d.instance(fn=f.qualname)
-        reads = sorted({n.attr for n in ast.walk(f.node) if isinstance(n, ast.Attribute) and isinstance(n.value, ast.Name) and n.value.id == "self" and isinstance(n.ctx, ast.Load)
-                        and not (f.cls is not None and repo.lookup_method(f.cls, n.attr) is not None and n.attr not in f.cls.properties_all())} if hasattr(f.cls, "properties_all") else
-                       {n.attr for n in ast.walk(f.node) if isinstance(n, ast.Attribute) and isinstance(n.value, ast.Name) and n.value.id == "self" and isinstance(n.ctx, ast.Load)})
-        reads = [a for a in reads if a not in ("mesh",)]
-        if not reads:
-            r3d.ok(f"{f.qualname}: depends on its arguments only")
-        else:
-            r3d.fail(f.qualname, f"reads-state:{reads[0]}", f.file, f.lineno, f"{f.cls.name}.{f.name}", f"memoised (keyed by its arguments) but reads self.{reads[0]}: changing that state notifies the simulation, which raises Need_Update and re-assembles - with the memoised value of the old state")
+    simu_memo_state_rule(ctx, "R14.3d")
     motion_notify_rule(ctx, cg)
     # the parameter descriptors are how a model change reaches Need_Update (R11.5)
     from . import c11
